@@ -218,6 +218,12 @@ def rule_defn(which):
                     o.check(rev and val, prog.pretty[bp], name + "-definition",
                             "%s does not test %shas_arc(v, u) for every arc (u, v)" % (name, "!" if neg else ""), prog.fns[bp]["span"])
         closure_defs(crate, o, PRED_CLOSURES)
+        # is_subdigraph: V(self) must be tested for membership in V(d)
+        for p in impl_fns(crate, "graaf::op::is_subdigraph::IsSubdigraph", "is_subdigraph"):
+            o.instances += 1
+            o.check(vertex_subset_tested(crate, p), prog.pretty[p], "is-subdigraph-vertex-subset",
+                    "is_subdigraph never tests a vertex of self for membership in the vertex set of d (V(self) must be a subset of V(d))",
+                    prog.fns[p]["span"])
         # is_superdigraph(d) = d.is_subdigraph(self)
         for p in impl_fns(crate, "graaf::op::is_superdigraph::IsSuperdigraph", "is_superdigraph"):
             summ = prog.summaries.get(p)
@@ -261,6 +267,49 @@ def undecided_note(o):
     if not o.undecided:
         return "every anchored definition was written over the primitive queries and was decided"
     return "not decided (not written over the primitive queries): " + "; ".join("%s [%s]" % u for u in o.undecided)
+
+
+def vertex_subset_tested(crate, p):
+    """somewhere in the family of is_subdigraph a membership test (contains / is_subset / binary_search / an equality
+    inside any / find / position) is applied to a value derived from d.vertices() (d = argument 2)"""
+    from .closures import capture_map
+    prog = crate.prog
+    an = crate.an(p)
+    fam = [p] + [q for q in crate.fn_paths() if prog.fns[q].get("root") == p and q != p]
+    # locals of the root that hold something made from vertices(d)
+    dv_locals = set()
+
+    def from_dvertices(t):
+        if isinstance(t, tuple) and t:
+            if t[0] == "call" and t[1] == VERTICES and t[3] and t[3][0][0] == "at" and t[3][0][1] == "A2":
+                return True
+            return any(from_dvertices(x) for x in t if isinstance(x, tuple))
+        return False
+    for ev in an.events:
+        if ev["k"] == "call" and ev["args"] and any(from_dvertices(a) for a in ev["args"]):
+            mode, name, vp = an.walk_place(an.blocks[ev["b"]]["term"]["dest"])
+            if mode == "mem":
+                dv_locals.add(name)
+    MEMBER = ("::contains", "::is_subset", "::is_superset", "::binary_search", "::contains_key")
+    for q in fam:
+        qa = crate.an(q)
+        regs = set(dv_locals) if q == p else set()
+        if q != p:
+            cm = capture_map(crate, qa)
+            if cm is not None:
+                regs = {cr for pr, cr in cm.regmap if pr in dv_locals}
+        for ev in qa.events:
+            if ev["k"] != "call" or not ev["key"]:
+                continue
+            if ev["key"].endswith(MEMBER):
+                for a in ev["args"]:
+                    r = a[1] if a[0] in ("at", "addr") else qa.region_of_pointer(a)
+                    if r in regs or from_dvertices(a):
+                        return True
+            if ev["key"].endswith(("Iterator::any", "Iterator::find", "Iterator::position", "Iterator::all")) and ev["args"] \
+                    and from_dvertices(ev["args"][0]) and ev["key"].endswith(("any", "find", "position")):
+                return True
+    return False
 
 
 IN = "graaf::op::indegree::Indegree::indegree"
